@@ -10,27 +10,27 @@ TECH_V = "contract-based deductive verification: requires/ensures + inductive le
 NOTE = {
  "C01": "Assumed (named): pass-1/pass-2 loops of SymbolTable::new / ObjectFile::new incl. the lc+1 call site and .fill/.stringz/.blkw emission; label map construction. Bounded: .stringz size (<= 4 bytes), label offset (1 label, thorough tier). Trusted: rustc, Kani, CBMC, CaDiCaL, Verus, Z3, vstd; assumed specs for core::mem::take and u16::wrapping_neg.",
  "C02": "Assumed (named): block nesting, duplicate-label detection, neighbour-only overlap search, never-panics-on-any-program (all inside the pass loops). Trusted: Verus/Z3/vstd, Kani/CBMC; assumed specs for core::mem::take, u16::wrapping_neg.",
- "C05": "Assumed: text -> token value (logos DFA and the lex_* validators), .blkw non-zero test inside Directive::parse. alloc::fmt::format is stubbed by a panicking function (checked unreachable). Trusted: rustc/Kani/CBMC.",
+ "C05": "Assumed: which validator the logos DFA dispatches a literal to, malformed literals, and the .blkw non-zero test inside Directive::parse. Bounded: validators called directly with 1-6 digits. alloc::fmt::format is stubbed by a panicking function in the value conversions (checked unreachable) and by a constant in the register-token harness. Trusted: rustc/Kani/CBMC.",
  "C06": "rustc/Kani/CBMC/CaDiCaL trusted; std verified through",
  "C07": "Assumed: Display for AsmInstr/Directive and the lexer/parser (text leg). str::to_uppercase stubbed by a panicking function (checked unreachable). Trusted: rustc/Kani/CBMC.",
  "C08": "Modular assumptions discharged elsewhere: read_mem/write_mem contract (L1 obligations), poll_interrupt contract (device obligations). Remaining assumptions: default internal-register map in L2; a port read twice in one step returns the same value; debug_frames off in L2; devices abstracted as 'arbitrary result, no simulator access'; RandomState::new stubbed (fixed hash keys); nondeterministic 64K heap block as symbolic memory. Trusted: rustc/Kani/CBMC/CaDiCaL.",
  "C09": "As C08. Device state unchanged on a denied access = the device handler is not called (L1).",
- "C10": "As C08. Arbitration bounded (<= 4 device slots); transparency proved for the empty handler (entry immediately followed by RTI); handlers with bodies and 'same output as an uninterrupted run' are guest-program properties: not claimed.",
+ "C10": "As C08. Arbitration bounded (<= 4 device slots, incl. external interrupts); transparency proved for the empty handler (entry immediately followed by RTI); handlers with bodies and 'same output as an uninterrupted run' are guest-program properties: not claimed. The real keyboard device's interrupt request is covered under C16/C32.",
  "C12": "As C08. Program-level statements (same display output, OS message printed) are guest code: not claimed.",
- "C13": "Bounded stand-in, never counted as proved: <= 3 iterations of the event loop with Simulator::step replaced by its contract. 'Splitting an execution into segments' follows from the loop mutating nothing between steps (asserted) only within the bound.",
+ "C13": "Bounded stand-in, never counted as proved: <= 3 (thorough: 4) iterations of the event loop with Simulator::step replaced by its contract; one breakpoint at a concrete address. 'Splitting an execution into segments' follows from the loop carrying no state besides the machine (asserted between steps) only within the bound. step_in against step's contract and the breakpoint predicates are complete.",
  "C14": "As C08; strict exemption list <= 1 block in the relational obligations (in_alloca itself: <= 2 blocks).",
  "C15": "rustc/Kani/CBMC/CaDiCaL trusted; std verified through",
- "C16": "As C08; std containers' own panic-freedom assumed; frame depth < 2^64 - 1; 'standard devices attached' abstracted as arbitrary device results (device bodies not verified); run_with_limit covered only through the bounded C13 obligations.",
+ "C16": "As C08; std containers' own panic-freedom assumed on unexplored paths; frame depth < 2^64 - 1; keyboard and display devices verified single-threaded with buffers <= 2 bytes (bounded), custom devices abstracted as arbitrary results; timer sampling relies on rand; run_with_limit covered only through the bounded C13 obligations; load_obj_file and new_with_mcr not covered.",
  "C19": "Bounded and partial: the binary reader's slice helpers (<= 8 bytes), count_digits (complete), and copy_obj_block incl. wrapping blocks (concrete shapes). Not covered: BinaryFormat::deserialize as a whole, TextFormat::deserialize, re-serialization as a whole, link, load_obj_file's loop.",
- "C23": "Bounded: 1 label, one-letter name. That pass 1 builds the table correctly is assumed.",
+ "C23": "Bounded: 1 label, one-letter name, one obligation per query spelling; add_label (extracted verbatim) only for a name not yet in the table. That pass 1's statement loop passes the right names, addresses and spans, and duplicate-label handling, are assumed.",
  "C25": "Assumed: SourceInfo::from_string builds a strictly increasing newline table ending with the text length (str searching); get_line's contract in the Verus unit (checked bounded by Kani, <= 4 entries); String::len <= isize::MAX. Bounded: trimming in line_span/read_line (<= 4 ASCII bytes, <= 1 newline). Trusted: Verus/Z3/vstd, Kani/CBMC.",
- "C26": "Call sites (which spans each assembler/linker error carries; 'lies within the source') assumed, except replace_pc_offset's label span (thorough tier).",
- "C27": "As C08; debug frames: <= 1 prior frame, <= 2 parameters, no nested signature tables (HashMap<u16,_> lookups with a registered signature are not explored).",
+ "C26": "Call sites (which spans each assembler/linker error carries; 'lies within the source') assumed, except replace_pc_offset's label span (undefined / external / out-of-range label operands).",
+ "C27": "As C08 (L2 compares each entered frame's caller, callee and kind with the reference through push_frame's contract). Debug frames: <= 1 prior frame, <= 2 parameters, no signature registered (obligations with a registered signature ran out of memory: re-registration and the built-in trap signatures are assumed).",
  "C28": "As C08; observer map bounded (2 updates); what is recorded for device-page reads is not constrained (the property speaks of non-I/O addresses).",
  "C29": "Bounded and partial: concrete start address and concrete S/N shape per obligation. Not covered: Simulator::load_obj_file (iteration over the object file's BTreeMap of blocks, external-symbol rejection, alloca list), registers/PC unchanged by load (copy_obj_block itself only receives the memory array), Simulator::new loading the OS image.",
- "C30": "new_with_mcr replaced by a recording stub (its body -- OS load, machine init -- is not verified here: 'equals a new simulator' holds by construction of reset calling it); io_reset per device slot bounded (4 slots).",
- "C32": "Device counts bounded (<= 5 slots, <= 2 requested ports); remove_device explored with arbitrary owners at two symbolic ports only; <SimDevice as ExternalDevice> calls replaced by slot-recording stubs; default-map L1 obligations in the thorough tier.",
- "C34": "Assumed: try_generate_time returns a value inside the configured range (rand crate); ranges must be subsets of [1, inf) for the interval lemma; same-seed reproducibility (rand) not claimed.",
+ "C30": "new_with_mcr replaced by a recording stub (its body -- OS load, machine init -- is not verified here: 'equals a new simulator' holds by construction of reset calling it once with the same flags and MCR handle); register map compared by content for one concrete mapping; breakpoint set not compared by content; io_reset per device slot bounded (4 slots) and its call by reset not required.",
+ "C32": "Device counts bounded (<= 5 slots, <= 2 requested ports); remove_device explored per removed id with one symbolic owner, plus one concrete multi-port table; mmap_internal with concrete addresses (hashing a symbolic key is out of reach); <SimDevice as ExternalDevice> calls replaced by slot-recording stubs; real keyboard/display devices with buffers <= 2 bytes; custom devices (Box<dyn ExternalDevice>) abstracted.",
+ "C34": "Assumed: StdRng's raw output is arbitrary (ChaCha not executed) and rand's range reduction is verified through only for four concrete ranges; try_generate_time's contract in the Verus unit is otherwise assumed; ranges must be subsets of [1, inf) for the interval lemma; same-seed reproducibility (rand) not claimed.",
  "C35": "rustc/Kani/CBMC/CaDiCaL trusted; std verified through",
 }
 ENGINE = {"C02": "verus+kani", "C01": "kani+verus", "C34": "verus+kani", "C25": "verus+kani"}
